@@ -75,9 +75,11 @@ CLAIMED = {
             "value is compared with the extracted model",
             "exact arithmetic", "Coq proof (DP monotonicity/transposition) + metamorphic correspondence"),
     "C11": ("the DTW model and its optimality theorem are stated over vector points (so they are the multivariate "
-            "statement), plus stride addressing and d=1 lemmas; ndim distance, cost matrix and distance matrices of "
+            "statement), plus stride addressing and d=1 lemmas; C11_c_ndim_kernel_*: the C kernel dtw_distance_ndim "
+            "regenerated whole from dd_dtw.c (Gen_cdist.v) returns the DTW value of the vector series and, with one "
+            "coordinate per point, what dtw_distance returns; ndim distance, cost matrix and distance matrices of "
             "both engines are compared with the extracted model, d=1 with the univariate routines",
-            "ndim kernels tied by correspondence",
+            "Python *Ndim inner-distance classes, matrix loops and glue tied by correspondence",
             "Coq proof + correspondence"),
     "C05": ("Coq theorems: the traceback modelled on dtw.best_path yields a contiguous unit-step path on finite (in-band) "
             "cells whose cost, penalties included, equals the start cell's value; exact path comparison with "
